@@ -894,6 +894,9 @@ func (in *interpreter) unop(instr *ssa.UnOp, x value) value {
 			return -x
 		}
 	case token.MUL:
+		if sp, ok := x.(symPtr); ok {
+			return in.indexValueNoCheck(sp.elems, sp.idx)
+		}
 		p := x.(*value)
 		if p == nil {
 			panic(runtimeError("invalid memory address or nil pointer dereference"))
@@ -1100,9 +1103,9 @@ func callBuiltin(caller *frame, fn *ssa.Builtin, args []value) value {
 			}
 		}
 		if fn.Name() == "min" {
-			return foldLeft(min, args)
+			return foldLeft(vmin, args)
 		}
-		return foldLeft(max, args)
+		return foldLeft(vmax, args)
 
 	case "real":
 		switch c := args[0].(type) {
@@ -1489,7 +1492,7 @@ func foldLeft(op func(value, value) value, args []value) value {
 	return x
 }
 
-func min(x, y value) value {
+func vmin(x, y value) value {
 	switch x := x.(type) {
 	case float32:
 		return fmin(x, y.(float32))
@@ -1504,7 +1507,7 @@ func min(x, y value) value {
 	return x
 }
 
-func max(x, y value) value {
+func vmax(x, y value) value {
 	switch x := x.(type) {
 	case float32:
 		return fmax(x, y.(float32))
